@@ -795,12 +795,14 @@ impl StaticsArena {
         annotations.sort_unstable();
         annotations.dedup();
 
-        let normalized = annotations
-            .iter()
-            .map(|annotation| {
-                self.normalized_at(*annotation).cloned().expect("top annotation was not normalized")
+        // An annotation that still mentions an unsolved hole has no normal form; the
+        // missing solution is reported as a type error, so it is left out here.
+        let (annotations, normalized): (Vec<_>, Vec<_>) = annotations
+            .into_iter()
+            .filter_map(|annotation| {
+                self.normalized_at(annotation).cloned().map(|normalized| (annotation, normalized))
             })
-            .collect();
+            .unzip();
         self.annotation_norms = NormalizedAnnotations::with_parallel(annotations, normalized);
     }
 
